@@ -1,14 +1,21 @@
 // ---- codecs_fmt_stubs.rs: the data structures of integer/src/fmt/non_power_two.rs (mirrored verbatim) and the
 // specification vocabulary "number of digits that write() emits", stated on the PREPARED STRUCTURE (C07).
-// Needs lib/prelude.rs (Word, pow2).
+// Needs lib/prelude.rs (Word, pow2) and lib/div_word_stubs.rs (FastDivideNormalized).
 //
 // TRUSTED here: the struct mirrors (non_power_two.rs:112-116, 154-158, 225-231, 289-297; radix.rs:60-76), the opaque
-// `Repr` / divider types, the two constants, and the contract of radix::radix_info (digits_per_word and range_per_word
+// `Repr` / FastDivideSmall types and the ASSUMED contract of num_modular's PreMulInv1by1::div_rem, the two constants, and the contract of radix::radix_info (digits_per_word and range_per_word
 // of a valid non-power-of-two radix: Kani group int_radix, harness vk_int_radix_info_tables, checks
 // `radix^digits_per_word == range_per_word <= Word::MAX < radix^(digits_per_word+1)` for every such radix).
 
 /// non_power_two.rs:27
 pub const CHUNK_LEN: usize = 16;
+
+/// b^e
+pub open spec fn ipow(b: int, e: int) -> int
+    decreases e
+{
+    if e <= 0 { 1 } else { b * ipow(b, e - 1) }
+}
 
 pub mod radix {
     use super::*;
@@ -18,12 +25,21 @@ pub mod radix {
     /// radix.rs:84  `max_exp_in_dword(3).0 + 1`: 3^80 < 2^128 < 3^81, 3^40 < 2^64 < 3^41
     pub const MAX_DWORD_DIGITS_NON_POW_2: usize = (@BITS@ / 32) * 40 + 1;
 
+    /// `FastDivideSmall = num_modular::PreMulInv1by1<Word>` (external crate num-modular 0.6.5, src/barrett.rs:39-104,
+    /// Granlund-Montgomery division by an invariant divisor): NOT verified here, its documented meaning is ASSUMED:
+    ///   new(divisor)      (debug_assert!(divisor > 1))
+    ///   div_rem(a, d)     "(a / divisor, a % divisor)" -- `d` must be the divisor the value was built for
     #[verifier::external_body]
     #[derive(Clone, Copy)]
     pub struct FastDivideSmall { _p: u8 }
-    #[verifier::external_body]
-    #[derive(Clone, Copy)]
-    pub struct FastDivideNormalized { _p: u8 }
+    impl FastDivideSmall {
+        pub uninterp spec fn divisor(&self) -> int;
+        #[verifier::external_body]
+        pub const fn div_rem(&self, a: Word, d: Word) -> (r: (Word, Word))
+            requires d as int == self.divisor(), d > 1,
+            ensures r.0 as int == (a as int) / (d as int), r.1 as int == (a as int) % (d as int),
+        { unimplemented!() }
+    }
 
     /// radix.rs:60-76
     #[derive(Clone, Copy)]
@@ -48,14 +64,25 @@ pub mod radix {
     pub broadcast proof fn ax_dpw(radix: Digit)
         requires radix_ok(radix),
         ensures #![trigger dpw(radix)] #![trigger rpw(radix)]
-            1 <= dpw(radix) < @BITS@, 3 <= rpw(radix) < B(),
+            // radix >= 3: radix^dpw <= Word::MAX < 3^MAX_WORD_DIGITS_NON_POW_2
+            1 <= dpw(radix) < MAX_WORD_DIGITS_NON_POW_2, 3 <= rpw(radix) < B(),
+            rpw(radix) == ipow(radix as int, dpw(radix)),
     {}
 
-    /// radix.rs:90-97
+    /// number of leading zero bits of a word as vstd specifies `leading_zeros`
+    pub open spec fn nlz(w: Word) -> int { vstd::std_specs::bits::@W@_leading_zeros(w) as int }
+
+    /// radix.rs:90-97 radix_info -> RadixInfo::for_radix (radix.rs:100-113):
+    ///   (digits_per_word, range_per_word) = max_exp_in_word(radix)
+    ///   fast_div_radix = FastDivideSmall::new(radix)
+    ///   fast_div_range_per_word = FastDivideNormalized::new(range_per_word << range_per_word.leading_zeros())
     #[verifier::external_body]
     pub fn radix_info(radix: Digit) -> (r: RadixInfo)
         requires radix_ok(radix),
         ensures r.digits_per_word as int == dpw(radix), r.range_per_word as int == rpw(radix),
+            r.fast_div_radix.divisor() == radix as int,
+            r.fast_div_range_per_word.wf(),
+            r.fast_div_range_per_word.divisor() == rpw(radix) * pow2(nlz(r.range_per_word)),
     { unimplemented!() }
 }
 pub use radix::{Digit, radix_ok, dpw, rpw};
@@ -123,3 +150,28 @@ pub mod fmt_types {
     }
 }
 pub use fmt_types::*;
+
+// ---- repr.rs:76-79 TypedReprRef, mirrored verbatim (only the two variants are used by the formatters) --------------
+pub mod repr_ref {
+    use super::*;
+    #[derive(Clone, Copy)]
+    pub enum TypedReprRef<'a> {
+        RefSmall(DoubleWord),
+        RefLarge(&'a [Word]),
+    }
+    impl<'a> TypedReprRef<'a> {
+        /// the magnitude
+        pub open spec fn v(&self) -> int {
+            match self { TypedReprRef::RefSmall(d) => *d as int, TypedReprRef::RefLarge(w) => val(w@) }
+        }
+        /// a large magnitude that fits a chunk buffer: 1..=CHUNK_LEN words, top word non-zero (a large Repr is
+        /// normalized, repr.rs:36-49; the length bound comes from the call sites, see PreparedMedium::new)
+        pub open spec fn chunk_wf(&self) -> bool {
+            match self {
+                TypedReprRef::RefSmall(d) => true,
+                TypedReprRef::RefLarge(w) => 1 <= w@.len() <= CHUNK_LEN && w@[w@.len() - 1] != 0,
+            }
+        }
+    }
+}
+pub use repr_ref::TypedReprRef;
